@@ -63,6 +63,53 @@ def main():
                         except Exception as e:
                             rec['error'] = f'{type(e).__name__}: {e}'
                         out.append(rec)
+        classical = 'SelfIdentityClosure' in [r.name for r in logic.Rules.closure]
+        # ---- literals of one subject spread over two worlds: closure is per world ----
+        if Meta.modal:
+            b_ = Constant(1, 0)
+            xsubjects = {'atom': Atomic(0, 0), 'pred': Predicated(F, (a,))}
+            if classical:
+                xsubjects['ident2'] = Predicated(Predicate.Identity, (a, b_))
+                xsubjects['exist'] = Predicated(Predicate.Existence, (a,))
+            for sname, S in xsubjects.items():
+                for assign in itertools.product((None, 0, 1), repeat=len(marks)):
+                    if 0 not in assign or 1 not in assign:
+                        continue
+                    l0 = [list(m) for m, w_ in zip(marks, assign) if w_ == 0]
+                    l1 = [list(m) for m, w_ in zip(marks, assign) if w_ == 1]
+                    rec = dict(logic=Meta.name, subject=sname, cross=True, has_des=has_des, lits0=l0, lits1=l1,
+                               lits=l0 + l1, world=None)
+                    try:
+                        tab = Tableau(logic)
+                        b = tab.branch()
+                        for (neg, d), w_ in zip(marks, assign):
+                            if w_ is not None:
+                                b.append(sdwnode(~S if neg else S, d, w_))
+                        tab.build()
+                        rec['branches'] = len(tab)
+                        rec['closed'] = bool(b.closed)
+                        if not b.closed:
+                            m = logic.Model()
+                            m.read_branch(b)
+                            rec['values'] = [m.value_of(S, world=0).name, m.value_of(S, world=1).name]
+                    except Exception as e:
+                        rec['error'] = f'{type(e).__name__}: {e}'
+                    out.append(rec)
+        # ---- classical: ~ a = a where the two occurrences are equal but distinct objects ----
+        if classical:
+            w = 0 if Meta.modal else None
+            rec = dict(logic=Meta.name, subject='identity-twin', world=w, has_des=has_des, lits=[[True, None]], special=True)
+            try:
+                c1 = Constant(3, 7)
+                junk = [Constant(i % 4, 100 + i // 4) for i in range(5000)]      # cycle the bounded item cache
+                c2 = Constant(3, 7)
+                rec['twin_distinct_objects'] = c1 is not c2
+                tab = Tableau(logic); b = tab.branch()
+                b.append(sdwnode(~Predicated(Predicate.Identity, (c1, c2)), None, w)); tab.build()
+                rec['closed'] = bool(b.closed); rec['branches'] = len(tab)
+            except Exception as e:
+                rec['error'] = f'{type(e).__name__}: {e}'
+            out.append(rec)
         # classical identity / existence literals
         if 'SelfIdentityClosure' in [r.name for r in logic.Rules.closure]:
             for pname, s in (('identity', Predicated(Predicate.Identity, (a, a))), ('existence', Predicated(Predicate.Existence, (a,)))):
